@@ -58,6 +58,9 @@ pub struct History {
     pub uris: Vec<String>,
     /// the steps; `to_messages` appends didClose of everything still open, shutdown and exit
     pub steps: Vec<Step>,
+    /// fault: the client vanishes after the last step (transport closed: no didClose, no shutdown, no exit)
+    #[serde(default)]
+    pub abrupt_end: bool,
 }
 
 impl History {
@@ -96,6 +99,9 @@ impl History {
     pub fn full_steps(&self) -> Vec<Step> {
         let mut open = vec![false; self.uris.len()];
         let mut v = self.steps.clone();
+        if self.abrupt_end {
+            return v;
+        }
         for s in &self.steps {
             match s {
                 Step::Open { doc, .. } => open[*doc] = true,
@@ -148,8 +154,10 @@ impl History {
                 }
             }
         }
-        out.push(Message::Request(Request { id: RequestId::from(1_000_000), method: "shutdown".into(), params: json!(null) }));
-        out.push(Message::Notification(Notification { method: "exit".into(), params: json!(null) }));
+        if !self.abrupt_end {
+            out.push(Message::Request(Request { id: RequestId::from(1_000_000), method: "shutdown".into(), params: json!(null) }));
+            out.push(Message::Notification(Notification { method: "exit".into(), params: json!(null) }));
+        }
         out
     }
 }
@@ -513,5 +521,7 @@ pub fn generate(rng: &mut Rng, pool: &TextPool, max_steps: usize) -> History {
             }
         }
     }
-    History { uris, steps }
+    // swarm: one history in eight ends with the client vanishing (transport closed at an arbitrary instant)
+    let abrupt_end = rng.chance(1, 8);
+    History { uris, steps, abrupt_end }
 }
